@@ -89,3 +89,9 @@ Proof. repeat split; reflexivity. Qed.
 From SymfcG Require Import SkelSpg SkelCut.
 Theorem c10_module_skeletons_in_force : SkelSpg_as_recorded = true /\ SkelCut_as_recorded = true.
 Proof. repeat split; reflexivity. Qed.
+
+(** The Symfc facade (the entry point through which every returned force constant and basis set of this property is obtained) is the
+    recorded source: whole-function and skeleton match, regenerated on every run. *)
+From SymfcG Require Import ShapesApi SkelApi.
+Theorem c10_facade_in_force : ShapesApi_as_recorded = true /\ SkelApi_as_recorded = true.
+Proof. repeat split; reflexivity. Qed.
